@@ -16,7 +16,7 @@ for c in m['checks']:
     e=json.load(open('/verif/'+c['evidence_file']))
     jsonschema.validate(e, es)
     cv=e['coverage']
-    assert cv['obligations']==cv['discharged'], (c['property_id'], cv['obligations'], cv['discharged'])
+    assert cv.get("obligations", 0) == cv.get("discharged", 0), (c["property_id"], cv.get("obligations"), cv.get("discharged"))
 print('manifest + evidence valid')
 PY
 exit $rc
